@@ -30,7 +30,11 @@ func checkRuntimeView(e *executor, r *stepResult) *vfkit.Violation {
 	const P = "C05"
 	if len(r.BadTargets) > 0 {
 		sort.Strings(r.BadTargets)
-		return viol(P, "no update addresses a container the runtime has stopped or removed", "update-for-dead-container",
+		sig := "update-for-dead-container"
+		if e.failedPendingBefore {
+			sig += ":after-failed-request"
+		}
+		return viol(P, "no update addresses a container the runtime has stopped or removed", sig,
 			"%s: updates for %v", r.Desc, r.BadTargets)
 	}
 	if len(r.DupTargets) > 0 {
